@@ -24,7 +24,7 @@ func runsCutoff(n int) int {
 }
 
 func checkC02(c statCase) (Outcome, error) {
-	bits := c.Seq.Expand()
+	bits := windowBits(c.Seq.Expand(), uint64(c.Seq.N)*2654435761+c.Seq.Seed+uint64(len(c.Test)))
 	n := len(bits)
 	what := fmt.Sprintf("%s ones=%v n=%d family=%s", c.Test, c.Flag, n, c.Seq.Family)
 	out := Outcome{Classes: seqClasses(c, n)}
@@ -72,7 +72,7 @@ func checkC02(c statCase) (Outcome, error) {
 	}
 	if n%8 == 0 && n > 0 {
 		// the byte-oriented entry points of the same three tests, on the harness's own packing
-		data := gen.Pack(bits)
+		data := windowBytes(gen.Pack(bits), uint64(n)+c.Seq.Seed)
 		var bp, bq float64
 		switch c.Test {
 		case "runs":
